@@ -259,7 +259,7 @@ class Base(_BaseClass):
              url("\"") => "
         """
         if token:
-            value = token[1][4:-1].strip()
+            value = token[1][4:-1].strip(' \t\r\n\f')
             if value and (value[0] in '\'"') and (value[0] == value[-1]):
                 # a string "..." or '...'
                 value = value.replace('\\' + value[0], value[0])[1:-1]
